@@ -207,7 +207,7 @@ def _run_case(mod, subname, case):
         raise RuntimeError(f"sub-check {subname} has no single-case check")
     import contextlib
     try:
-        with contextlib.redirect_stdout(open(os.devnull, "w")):      # the code under test prints solver iterations
+        with contextlib.redirect_stdout(_devnull()):      # the code under test prints solver iterations
             sub.check(case)
     except Violation as v:
         return v.items
@@ -285,9 +285,19 @@ def _active_matchers(mod, findings_active):
     return out
 
 
+_DEVNULL = None
+
+
+def _devnull():
+    global _DEVNULL
+    if _DEVNULL is None:
+        _DEVNULL = open(os.devnull, "w")
+    return _DEVNULL
+
+
 def _silence_stdout():
     """Worker processes: the code under test prints solver iterations to stdout."""
-    sys.stdout = open(os.devnull, "w")
+    sys.stdout = _devnull()
 
 
 def _run_hyp_shard(prop, subname, shard, n, seed_int, findings_active, deadline_ts):
